@@ -20,7 +20,8 @@ TABLE = {
             ('OpyVerif.Proofs.Accept', 'Opy', r'best_site_is_sweep_rule|accept_takes_better'),
             ('OpyVerif.Generated.Accepts', 'Opy.Gen', r'acceptSites_ok|best_sites_present'),
             ('OpyVerif.Proofs.Lemmas.MachineInv', 'Opy', r'inv_(apply|run|init)'),
-            ('OpyVerif.Generated.Constants', 'Opy.Gen', r'floatMax_is_sys_max')],
+            ('OpyVerif.Generated.Constants', 'Opy.Gen', r'floatMax_is_sys_max'),
+            ('OpyVerif.Generated.Skeletons', 'Opy.Gen', r'skel_\w+_good')],
     'C03': [('OpyVerif.Proofs.C03', 'Opy', None),
             ('OpyVerif.Proofs.C03norm', 'Opy', None), ('OpyVerif.Proofs.C03onlooker', 'Opy', None),
             ('OpyVerif.Proofs.Budget', 'Opy', None), ('OpyVerif.Generated.Budget', 'Opy.Gen', None),
@@ -53,7 +54,8 @@ TABLE = {
             ('OpyVerif.Proofs.HeapCode', 'Opy', None), ('OpyVerif.Generated.HeapOps', 'Opy.Gen', None),
             ('OpyVerif.Proofs.GrowProg', 'Opy', None), ('OpyVerif.Proofs.GrowCode', 'Opy', None), ('OpyVerif.Generated.Grow', 'Opy.Gen', None),
             ('OpyVerif.Proofs.Forest', 'Opy', None),
-            ('OpyVerif.Proofs.PopLoops', 'Opy', None), ('OpyVerif.Proofs.PopLoopsCode', 'Opy', None), ('OpyVerif.Generated.PopLoops', 'Opy.Gen', None)],
+            ('OpyVerif.Proofs.PopLoops', 'Opy', None), ('OpyVerif.Proofs.PopLoopsCode', 'Opy', None), ('OpyVerif.Generated.PopLoops', 'Opy.Gen', None),
+            ('OpyVerif.Proofs.TreesProg', 'Opy', None), ('OpyVerif.Proofs.TreesCode', 'Opy', None), ('OpyVerif.Generated.Trees', 'Opy.Gen', None)],
     'C09': [('OpyVerif.Proofs.C09', 'Opy.PNode', None), ('OpyVerif.Proofs.C09repro', 'Opy.PNode', None),
             ('OpyVerif.Proofs.ReproProg', 'Opy', None), ('OpyVerif.Proofs.ReproCode', 'Opy', None), ('OpyVerif.Generated.Repro', 'Opy.Gen', None),
             ('OpyVerif.Proofs.SelectProg', 'Opy', r'tournProg'), ('OpyVerif.Generated.Select', 'Opy.Gen', r'tournProg_eq'),
